@@ -27,7 +27,20 @@ PS == SetToSeq(Sub(Pool, 1000, 100000) \cup Sub(PForms, 800, 100000))
 Batch == 100
 NB == (Len(PS) + Batch - 1) \div Batch
 Points == {<<TDbl(1, 3, -1), TDbl(1, 1, -2)>>, <<TDbl(-1, 3, -2), TDbl(1, 1, 1)>>} \cup (IF Thorough THEN {<<TDbl(1, 5, -3), TDbl(-1, 7, -2)>>} ELSE {})
-Cases == {[op |-> "ccode", ts |-> SubSeq(PS, (b - 1) * Batch + 1, IF b * Batch > Len(PS) THEN Len(PS) ELSE b * Batch), x |-> p[1], y |-> p[2]] : b \in 1..NB, p \in Points}
+\* special values at run time: arguments that vanish, ties, boundaries of conditions (x = y, x = -y, x = 0, y = 0)
+xmy == B("sub", x, y)
+xpy == B("add", x, y)
+EArg == {xmy, xpy, x, y, B("mul", x, y), B("sub", B("mul", TInt(2), x), B("mul", TInt(2), y))}
+Edge == {U(f, a) : f \in {"sign", "abs", "floor", "ceiling", "sqrt", "cbrt", "sin", "cos", "tan", "asin", "atan", "sinh", "tanh", "exp", "erf"}, a \in EArg}
+        \cup {B(f, a, b) : f \in {"max", "min", "atan2"}, a, b \in {x, y, xmy, TInt(0)}}
+        \cup {TOp("piecewise", <<TInt(1), B(r, a, b), TInt(2), T("True", <<>>, "", 0, 0)>>) : r \in {"Lt", "Le", "Eq", "Ne"}, a \in {x, xmy}, b \in {y, TInt(0)}}
+        \cup {B("add", B("mul", TInt(3), U("sign", a)), y) : a \in EArg} \cup {B("pow", a, TInt(2)) : a \in EArg} \cup {B("pow", TInt(2), a) : a \in EArg}
+        \cup {B("mul", a, U("abs", a)) : a \in EArg} \cup {B("pow", U("abs", a), TRat(1, 2)) : a \in EArg}
+ES == SetToSeq(Edge)
+NE == (Len(ES) + Batch - 1) \div Batch
+EdgePoints == {<<TDbl(1, 3, -1), TDbl(1, 3, -1)>>, <<TDbl(-1, 3, -2), TDbl(1, 3, -2)>>, <<TDblZero(1), TDbl(1, 1, 1)>>, <<TDbl(1, 1, 1), TDblZero(1)>>, <<TDblZero(1), TDblZero(1)>>, <<TDbl(-1, 1, 0), TDbl(-1, 1, 0)>>}
+Cases == {[op |-> "ccode", ts |-> SubSeq(PS, (b - 1) * Batch + 1, IF b * Batch > Len(PS) THEN Len(PS) ELSE b * Batch), x |-> p[1], y |-> p[2], edge |-> 0] : b \in 1..NB, p \in Points}
+         \cup {[op |-> "ccode", ts |-> SubSeq(ES, (b - 1) * Batch + 1, IF b * Batch > Len(ES) THEN Len(ES) ELSE b * Batch), x |-> p[1], y |-> p[2], edge |-> 1] : b \in 1..NE, p \in EdgePoints}
 ASSUME PrintT(<<"cases", Cardinality(Cases), Len(PS)>>)
 ASSUME ndJsonSerialize(IOEnv.OUT, SetToSeq(Cases))
 VARIABLE dummy
